@@ -77,13 +77,27 @@ impl Prop for C11 {
         fn dense(n: usize) -> usize {
             n * n / 2 + 2
         }
-        let single = graph_strategy(&SINGLE_KINDS, 0, 10, dense, &[0, 1, 1, 3], 3);
+        let single = graph_strategy(&SINGLE_KINDS, 0, 10, dense, &[0, 1, 1, 3, 5, 6], 3);
         let multi = graph_strategy(&[2, 3, 6, 7], 0, 6, dense, &[0, 1], 2);
         fn medium(n: usize) -> usize {
             n * 3
         }
         let larger = graph_strategy(&SINGLE_KINDS, 11, 24, medium, &[0, 1], 3);
-        (prop_oneof![12 => single, 1 => multi, 1 => larger], prop_oneof![2 => Just(0u32), 3 => any::<u32>()], any::<bool>())
+        fn sparse_tri(n: usize) -> usize {
+            n * 2
+        }
+        let boundary = boundary_graph_strategy(&SINGLE_KINDS, sparse_tri, &[0, 1], 4, 65);
+        // a hub with dozens of neighbours (star shape) plus random edges and, on the kinds that allow
+        // them, self-loops: neighbour sets larger than any small threshold
+        let hub = (proptest::sample::select(&SINGLE_KINDS[..]), 34u8..=80, any::<u32>(), proptest::collection::vec((any::<u8>(), any::<u8>(), any::<u8>()), 0..40), proptest::sample::select(&[0u8, 1][..]))
+            .prop_map(|(kind, n, perm, mut edges, wmode)| {
+                // make self-loops on the hub and a few others likely (ignored on kinds without loops)
+                edges.push((0, 0, 3));
+                edges.push((1, 1, 3));
+                GraphCase { kind, n, perm, shape: 3, edges, wmode, big_n: 0, big_seed: 0 }
+            })
+            .boxed();
+        (prop_oneof![1200 => single, 100 => multi, 100 => larger, 1 => boundary, 3 => hub], prop_oneof![2 => Just(0u32), 3 => any::<u32>()], any::<bool>())
             .prop_map(|(g, subset, count_zeros)| ClusterCase { g, subset, count_zeros })
             .boxed()
     }
@@ -271,6 +285,9 @@ impl Prop for C11 {
         }
         if ng.has_loop() {
             out.class("has_self_loop");
+        }
+        if (0..n).any(|i| (0..n).filter(|j| a[i][*j] > 0.0 || a[*j][i] > 0.0).count() > 32) {
+            out.class("node_with_more_than_32_neighbours");
         }
         out.nontrivial = (has_triangle || has_square) && (proper_with_outside || ng.has_loop());
         out
